@@ -46,7 +46,16 @@ func minGT(s map[int64]bool, i int64) (int64, bool) {
 // structural check of one tree: BST order, balance factors = height difference
 // in {-1,0,1}, parent links, no tombstone reachable; returns height.
 func checkNode(n, parent *ad.AvlNode, lo, hi *int64, msg *string) int64 {
+	return checkNodeD(n, parent, lo, hi, msg, 0)
+}
+func checkNodeD(n, parent *ad.AvlNode, lo, hi *int64, msg *string, depth int) int64 {
 	if n == nil {
+		return 0
+	}
+	if depth > maxDepth {
+		if *msg == "" {
+			*msg = "tree deeper than any AVL tree can be (cycle)"
+		}
 		return 0
 	}
 	if n.Parent != parent && *msg == "" {
@@ -59,8 +68,8 @@ func checkNode(n, parent *ad.AvlNode, lo, hi *int64, msg *string) int64 {
 	if ((lo != nil && v <= *lo) || (hi != nil && v >= *hi)) && *msg == "" {
 		*msg = fmt.Sprintf("node %d: search-tree order violated", n.Value)
 	}
-	hl := checkNode(n.Left, n, lo, &v, msg)
-	hr := checkNode(n.Right, n, &v, hi, msg)
+	hl := checkNodeD(n.Left, n, lo, &v, msg, depth+1)
+	hr := checkNodeD(n.Right, n, &v, hi, msg, depth+1)
 	if int64(n.Balance) != hr-hl && *msg == "" {
 		*msg = fmt.Sprintf("node %d: balance factor %d but height difference %d", n.Value, n.Balance, hr-hl)
 	}
@@ -120,10 +129,14 @@ func propCheck(ops []Op) (fail string, at int) {
 	sets := []map[int64]bool{{}}
 	var iters []*ad.AvlIterator
 	var rits []refIter
+	ho := newHeapOracle()
 	for idx, o := range ops {
 		at = idx
 		one := execOne(o, &trees, &iters)
 		outs = append(outs, one)
+		if msg := ho.check(o, trees); msg != "" {
+			return "after " + o.Op + fmt.Sprintf("(%d): ", o.I) + msg, idx
+		}
 		switch o.Op {
 		case "Ins":
 			exp := !sets[o.T][o.I]
@@ -241,4 +254,98 @@ func shrink(ops []Op) []Op {
 		}
 	}
 	return ops
+}
+
+// ---- pointer-level oracle (model independent) ------------------------------------
+// Tracks every node object ever reachable from a tree and checks, after every step:
+// no object is reachable from two trees; Clone creates only new objects and Insert at
+// most one; every pointer stored in a reachable object stays inside its tree; an
+// object that is no longer reachable is flagged Deleted (and reachable ones are not);
+// a step leaves every object of the trees it does not mutate bit-for-bit unchanged.
+type nodeSnap struct {
+	value, balance      int
+	deleted             bool
+	left, right, parent *ad.AvlNode
+}
+
+func snapOf(n *ad.AvlNode) nodeSnap {
+	return nodeSnap{n.Value, n.Balance, n.Deleted, n.Left, n.Right, n.Parent}
+}
+
+type heapOracle struct {
+	region map[*ad.AvlNode]int
+	snap   map[*ad.AvlNode]nodeSnap
+	order  []*ad.AvlNode // registration order (deterministic reports)
+}
+
+func newHeapOracle() *heapOracle {
+	return &heapOracle{map[*ad.AvlNode]int{}, map[*ad.AvlNode]nodeSnap{}, nil}
+}
+
+func (h *heapOracle) check(o Op, trees []*ad.AvlTree) string {
+	mutated := -1 // the tree whose objects the step may write
+	switch o.Op {
+	case "Ins", "Del":
+		mutated = o.T
+	case "Clone":
+		mutated = len(trees) - 1
+	}
+	reach := make([]map[*ad.AvlNode]bool, len(trees))
+	for j, t := range trees {
+		reach[j] = map[*ad.AvlNode]bool{}
+		budget := walkGuard
+		fresh := 0
+		msg := ""
+		preorder(t.Root, func(n *ad.AvlNode) {
+			if reach[j][n] && msg == "" {
+				msg = fmt.Sprintf("node %d reachable twice in tree %d", n.Value, j)
+			}
+			reach[j][n] = true
+			if r, ok := h.region[n]; ok {
+				if r != j && msg == "" {
+					msg = fmt.Sprintf("node %d: object shared between trees %d and %d", n.Value, r, j)
+				}
+				if o.Op == "Clone" && j == mutated && msg == "" {
+					msg = fmt.Sprintf("node %d: Clone reused an existing node object", n.Value)
+				}
+			} else {
+				fresh++
+				h.region[n] = j
+				h.order = append(h.order, n)
+			}
+		}, &budget)
+		if budget <= 0 {
+			return fmt.Sprintf("tree %d: walk does not terminate (cycle)", j)
+		}
+		if msg != "" {
+			return msg
+		}
+		if fresh > 0 && !(j == mutated && (o.Op == "Clone" || (o.Op == "Ins" && fresh == 1))) {
+			return fmt.Sprintf("tree %d: %d unexpected new node objects after %s", j, fresh, o.Op)
+		}
+		for _, n := range h.order {
+			if !reach[j][n] {
+				continue
+			}
+			for _, q := range []*ad.AvlNode{n.Left, n.Right, n.Parent} {
+				if q != nil && !reach[j][q] {
+					return fmt.Sprintf("node %d of tree %d stores a pointer to an object outside the tree", n.Value, j)
+				}
+			}
+			if n.Deleted {
+				return fmt.Sprintf("node %d: reachable node flagged Deleted", n.Value)
+			}
+		}
+	}
+	for _, n := range h.order {
+		r := h.region[n]
+		if r < len(trees) && !reach[r][n] && !n.Deleted {
+			return fmt.Sprintf("node %d: unlinked from tree %d but not flagged Deleted", n.Value, r)
+		}
+		if old, ok := h.snap[n]; ok && r != mutated && old != snapOf(n) {
+			return fmt.Sprintf("node %d of tree %d changed by %s on another tree / by a read-only step", n.Value, r, o.Op)
+		}
+		h.snap[n] = snapOf(n)
+	}
+	return ""
 }
